@@ -35,7 +35,26 @@ pub fn set_hooks(before: BeforeFn, after: AfterFn) {
 pub fn clear_hooks() {
     HOOK_BEFORE.store(0, Ordering::SeqCst);
     HOOK_AFTER.store(0, Ordering::SeqCst);
+    HOOK_OVERRIDE.store(0, Ordering::SeqCst);
 }
+
+/// Optional third hook (weak-memory correspondence): may replace the value a LOAD or a FAILED
+/// compare-exchange returns by an older value of the same location (a stale read that C11
+/// permits); arguments: access, value really read, expected value (failed compare-exchange
+/// only), is-failed-compare-exchange.  Memory itself is never changed by it.
+pub type OverrideFn = fn(&Access, u64, u64, bool) -> u64;
+static HOOK_OVERRIDE: core::sync::atomic::AtomicUsize = core::sync::atomic::AtomicUsize::new(0);
+pub fn set_override_hook(f: OverrideFn) { HOOK_OVERRIDE.store(f as usize, Ordering::SeqCst); }
+pub fn clear_override_hook() { HOOK_OVERRIDE.store(0, Ordering::SeqCst); }
+#[inline(always)]
+fn overridden(a: &Access, real: u64, expected: u64, cas_fail: bool) -> u64 {
+    let h = HOOK_OVERRIDE.load(Ordering::Relaxed);
+    if h != 0 { let f: OverrideFn = unsafe { core::mem::transmute(h) }; f(a, real, expected, cas_fail) } else { real }
+}
+pub trait FromU64 { fn from_u64(x: u64) -> Self; }
+macro_rules! from_u64_int { ($($t:ty),*) => { $(impl FromU64 for $t { #[inline(always)] fn from_u64(x: u64) -> Self { x as $t } })* } }
+from_u64_int!(u8, u16, u32, u64, usize, i8, i16, i32, i64, isize);
+impl FromU64 for bool { #[inline(always)] fn from_u64(x: u64) -> Self { x != 0 } }
 
 #[inline(always)]
 fn before(a: &Access) {
@@ -70,7 +89,9 @@ macro_rules! gated_int {
             #[track_caller]
             pub fn load(&self, order: Ordering) -> $prim {
                 let a = self.acc(Kind::Load, order, order, core::panic::Location::caller());
-                before(&a); let r = self.v.load(order); after(&a, r as u64, 0, true); r
+                before(&a); let r = self.v.load(order);
+                let r = <$prim as FromU64>::from_u64(overridden(&a, r as u64, 0, false));
+                after(&a, r as u64, 0, true); r
             }
             #[track_caller]
             pub fn store(&self, val: $prim, order: Ordering) {
@@ -87,6 +108,7 @@ macro_rules! gated_int {
                 let a = self.acc(Kind::Cas, success, failure, core::panic::Location::caller());
                 before(&a);
                 let r = self.v.compare_exchange(current, new, success, failure);
+                let r = match r { Ok(o) => Ok(o), Err(o) => Err(<$prim as FromU64>::from_u64(overridden(&a, o as u64, current as u64, true))) };
                 match r { Ok(o) => after(&a, o as u64, new as u64, true), Err(o) => after(&a, o as u64, new as u64, false) }
                 r
             }
@@ -96,6 +118,7 @@ macro_rules! gated_int {
                 let a = self.acc(Kind::Cas, success, failure, core::panic::Location::caller());
                 before(&a);
                 let r = self.v.compare_exchange(current, new, success, failure);
+                let r = match r { Ok(o) => Ok(o), Err(o) => Err(<$prim as FromU64>::from_u64(overridden(&a, o as u64, current as u64, true))) };
                 match r { Ok(o) => after(&a, o as u64, new as u64, true), Err(o) => after(&a, o as u64, new as u64, false) }
                 r
             }
